@@ -32,6 +32,10 @@ import vlib
 
 LEVEL = "model_checking"
 
+# FALSE while known finding X01:ReadBeyondLen is open; set True together with flipping that entry to "fixed" once
+# findings/X01-readfrom-len.fix.patch is committed to /repo (the specification then models ReadFrom copying into b[:len(b)])
+CLIP_TO_LEN = False
+
 KEYS = ("ReadBeyondLen", "WriteAfterClosePanics", "ReadAfterOwnClose", "CloseLeavesOwnReadBlocked")
 KF_WHAT = {
     "ReadBeyondLen": "bufferedPacketConn.ReadFrom copies into b[:cap(b)] (memconn.go:37): with len(b) < cap(b) it stores beyond len(b) and returns n > len(b)",
@@ -49,13 +53,13 @@ def mc_cfg(cap, depth, lens, bufs, loop, every, view, export="Export", ghost=Tru
         inv += ["ExactlyOnceFifo", "Bounded"]
     if every:
         inv.append(export)
-    return ("SPECIFICATION MCSpec\nCONSTANTS\n  EA = \"a\"\n  EB = \"b\"\n  Nil = Nil\n  Cap = %d\n  MaxDepth = %d\n  Lens = {%s}\n"
+    return ("SPECIFICATION MCSpec\nCONSTANTS\n  EA = \"a\"\n  EB = \"b\"\n  Nil = Nil\n  ClipToLen = " + ("TRUE" if CLIP_TO_LEN else "FALSE") + "\n  Cap = %d\n  MaxDepth = %d\n  Lens = {%s}\n"
             "  BufIdx = {%s}\n  WithLoop = %s\n  ExportEvery = %d\nINVARIANTS %s\n%s%sCHECK_DEADLOCK FALSE\n" %
             (cap, depth, ", ".join(map(str, lens)), ", ".join(map(str, bufs)), "TRUE" if loop else "FALSE", every,
              " ".join(inv), "PROPERTIES NoAcceptAfterClose\n" if ghost else "", ("VIEW %s\n" % view) if view else ""))
 
 
-TRACE_CFG = ("SPECIFICATION TraceSpec\nCONSTANTS\n  EA = \"a\"\n  EB = \"b\"\n  Cap = 512\n  Nil = Nil\n  TraceFile = \"trace.ndjson\"\n"
+TRACE_CFG = ("SPECIFICATION TraceSpec\nCONSTANTS\n  EA = \"a\"\n  EB = \"b\"\n  Cap = 512\n  Nil = Nil\n  ClipToLen = " + ("TRUE" if CLIP_TO_LEN else "FALSE") + "\n  TraceFile = \"trace.ndjson\"\n"
              "CONSTRAINT Check\nPOSTCONDITION TraceAccepted\nCHECK_DEADLOCK FALSE\n")
 
 
@@ -147,13 +151,14 @@ def replay_behaviour(ctx, binary, beh, scale, step):
     return not contract_alternative(beh[step], beh[step]["exp"], rs[0]["actual"])
 
 
-def event_step(ev, exp):
+def event_step(ev, info):
     """A trace line (one real call) in the shape of a TLC step / outcome pair."""
+    exp = info["exp"]
     def pick(expid, ids):
         if expid in ids or not ids:
             return expid if expid in ids else (-1 if not ids else ids[0])
         return ids[0]
-    step = {"a": ev["a"], "e": ev["e"], "n": ev["n"], "id": ev["id"], "len": ev["len"], "cap": ev["cap"], "exp": exp, "kf": []}
+    step = {"a": ev["a"], "e": ev["e"], "n": ev["n"], "id": ev["id"], "len": ev["len"], "cap": ev["cap"], "exp": exp, "kf": list(info.get("kf") or [])}
     act = {"res": ev["res"], "n": ev["rn"], "id": -1, "over": ev["over"], "wake": [], "loop": []}
     note = ev.get("bad") or ""
     if ev["a"] == "read" and ev["res"] == "ok" and not note:
@@ -283,7 +288,7 @@ def run(ctx):
         yield
 
         # G: ghost invariants with content identities on every behaviour up to a depth bound
-        d = 6 if quick else 7
+        d = 6 if quick else 8
         r = xc.tlc_ok(ctx, "MemConnMC", mc_cfg(2, d, [0, 40], [1, 3], True, 0, "ViewHist"), "ghost depth %d" % d, timeout=1500)
         cov["tlc"]["ghost_depth%d" % d] = r.summary()
         states += r.distinct
